@@ -412,6 +412,10 @@ func (g *qeGen) request() string {
 			n := 1 + r.intn(3)
 			for i := 0; i < n; i++ {
 				c := vPick(r, cols)
+				if i == 0 && n > 1 && r.chance(1, 4) && (table == "hosts" || table == "services") {
+					// a custom variable key that many rows lack, followed by further keys
+					c = "custom_variables"
+				}
 				if g.colType(table, c) == InterfaceListCol || c == "nosuchcolumn" {
 					continue
 				}
@@ -497,7 +501,7 @@ func (g *qeGen) groupedStats(table string, lines *[]string) {
 		case 0:
 			// a nested group as common first term
 			g.filterTree(table, "Stats", 1, &first)
-		case 1:
+		case 1, 2:
 			first = []string{"Stats: custom_variables = " + vPick(r, qeCVNames) + " " + vPick(r, qeCVValues)}
 		default:
 			first = []string{"Stats: " + g.leaf(table)}
@@ -505,12 +509,19 @@ func (g *qeGen) groupedStats(table string, lines *[]string) {
 		blocks := 2 + r.intn(3)
 		for b := 0; b < blocks; b++ {
 			cur := append([]string{}, first...)
-			if len(first) == 1 && strings.HasPrefix(first[0], "Stats: custom_variables") && r.chance(1, 2) {
-				// same value, other variable name
-				parts := strings.SplitN(first[0], " ", 5)
-				if len(parts) == 5 {
-					cur = []string{"Stats: custom_variables = " + vPick(r, qeCVNames) + " " + parts[4]}
+			// near variants of the shared first term in later blocks: the optimiser must not take them for the same term
+			if len(first) == 1 && b >= 1 && r.chance(1, 3) {
+				parts := strings.SplitN(first[0], " ", 5) // Stats: <col> <op> <rest>
+				switch {
+				case strings.HasPrefix(first[0], "Stats: custom_variables") && len(parts) == 5:
+					// same value, other variable name
+					cur = []string{"Stats: custom_variables " + parts[2] + " " + vPick(r, qeCVNames) + " " + parts[4]}
+				case len(parts) >= 4:
+					// same column and value, other operator
+					rest := strings.Join(parts[3:], " ")
+					cur = []string{"Stats: " + parts[1] + " " + vPick(r, []string{"=", "!=", ">=", "<", "~", "!~"}) + " " + rest}
 				}
+				g.count("stats:grouped-near-variant")
 			}
 			if r.chance(1, 6) {
 				cur = []string{"Stats: " + g.leaf(table)} // breaks the run
